@@ -155,11 +155,11 @@ def buildErrJson : BuildErr → Json
   | .keyError => "KeyError"
 
 def builtJson (b : Built Ty) : Json :=
-  let ex := exportModel Ty.name b false
-  let exb := exportModel Ty.name b true
-  let exJ := fun (e : Exported) => Json.mkObj [
-    ("nodes", Json.arr (e.nodes.map Json.str).toArray),
-    ("edges", Json.arr (e.edges.map (fun (a, b, d) => Json.arr #[Json.str a, Json.str b, Json.bool d])).toArray)]
+  let ex := exportModel nameRank nameWidth b false
+  let exb := exportModel nameRank nameWidth b true
+  let exJ := fun (e : Exported Ty) => Json.mkObj [
+    ("nodes", Json.arr (e.nodes.map (fun t => Json.str t.name)).toArray),
+    ("edges", Json.arr (e.edges.map edgeJson).toArray)]
   Json.mkObj [
     ("nodes", Json.arr (b.nodes.map (fun t => Json.str t.name)).toArray),
     ("edges", Json.arr (b.edges.map edgeJson).toArray),
